@@ -223,6 +223,19 @@ class ExcelExport(Contract):
         return out
 
 
+def same_system(text, A):
+    """the exported assertions denote the constraint system A: every model of the text is a model of A, and every
+    model of A extends to a model of the text (the text may name auxiliary Boolean literals of its own -- the tracking
+    literals of the diagnosis mode -- that A does not mention)"""
+    from psvc.ghost import bool_names_in
+
+    mine = bool_names_in(A)
+    aux = [z3.Bool(n) for n in sorted(bool_names_in(text) - mine)]
+    T_, A_ = And(*text), And(*A)
+    back = z3.Exists(aux, T_) if aux else T_
+    return And(Implies(T_, A_), Implies(A_, back))
+
+
 @register
 class Smt2Export(Contract):
     target = "solver.SchedulingSolver.export_to_smt2"
@@ -233,6 +246,8 @@ class Smt2Export(Contract):
         out = [dict(obj=o, optimizer=z, init=i) for o in (False, True) for z in ("incremental", "optimize") for i in (False, True)]
         # an assertion the user adds to an initialised solver is part of what the solver checks: exported too
         out += [dict(obj=False, optimizer="incremental", init=True, extra=True), dict(obj=True, optimizer="optimize", init=True, extra=True)]
+        # the diagnosis mode is a configuration like the others: the export denotes what the solver checks
+        out += [dict(obj=False, optimizer="incremental", init=False, debug=True), dict(obj=True, optimizer="optimize", init=True, debug=True)]
         return out
 
     def scenario(self, ps, P, case):
@@ -242,7 +257,7 @@ class Smt2Export(Contract):
         ps.TaskPrecedence(task_before=t1, task_after=t2)
         if case["obj"]:
             ps.ObjectiveMinimizeMakespan()
-        solver = ps.SchedulingSolver(problem=pb, optimizer=case["optimizer"])
+        solver = ps.SchedulingSolver(problem=pb, optimizer=case["optimizer"], **({"debug": True} if case.get("debug") else {}))
         if case["init"]:
             solver.initialize()
         extra = []
@@ -275,8 +290,8 @@ class Smt2Export(Contract):
         if P.symbolic:
             w = ctx["written"]
             ok = len(w) == 1 and hasattr(w[0], "formulas")
-            same = And(*w[0].formulas) == And(*A) if ok else z3.BoolVal(False)
-            return [Clause("writes[the text of exactly the stack the solver checks]", And(z3.BoolVal(ok), same), props=("C16",), kind="equals")]
+            same = same_system(w[0].formulas, A) if ok else z3.BoolVal(False)
+            return [Clause("writes[the SMT-LIB text denotes exactly the constraint system the solver checks]", And(z3.BoolVal(ok), same), props=("C16",), kind="equals")]
         # bounded native share: the text parses and denotes the same constraint system
         text = ctx["text"]
         try:
@@ -285,8 +300,8 @@ class Smt2Export(Contract):
         except Exception as e:  # noqa
             parsed, err = [], str(e)
         s = z3.Solver()
-        s.add(z3.And(*parsed) != z3.And(*A))
-        return [Clause("native[the SMT-LIB text parses back to an equivalent constraint system]", z3.BoolVal(err is None and s.check() == z3.unsat), props=("C16",), kind="equals", bounded="native grid: 8 configurations x sampled parameters", note=err)]
+        s.add(z3.Not(same_system(parsed, A)))
+        return [Clause("writes[the SMT-LIB text denotes exactly the constraint system the solver checks]", z3.BoolVal(err is None and s.check() == z3.unsat), props=("C16",), kind="equals", bounded="native grid: 8 configurations x sampled parameters", note=err)]
 
 
 @register
